@@ -203,6 +203,15 @@ def run_case(case, ctx):
             depth.append(0)
             feats.append(G.spec_features(spec))
             feats[-1]["narrow"] = bool(spec.get("dtype"))
+            # integer leaves in narrow types wrap around in their own arithmetic (numpy's rule):
+            # results are only compared while every magnitude stays clear of that
+            limits = {"int8": 2 ** 6, "uint8": 2 ** 6, "int16": 2 ** 14, "uint16": 2 ** 14,
+                      "int32": 2 ** 30}
+            items = spec["items"] if spec["k"] == "plist" else [spec]
+            found = [limits[i["dtype"]] for i in items if i.get("dtype") in limits]
+            feats[-1]["limit"] = min(found) if found else None
+            if spec["k"] == "plist" and any(i.get("dtype") for i in items):
+                feats[-1]["narrow"] = True
             isconst.append(spec["k"] != "poly")
             continue
         idx = node["args"]
@@ -277,7 +286,9 @@ def run_case(case, ctx):
             f["coef"] in ("int", "int64", "int32", "int16", "uint8") for f in argfeats)
         narrow = any(f.get("narrow") for f in argfeats)
         rtol = None if exact else (1e-4 if narrow else 1e-9)
-        if narrow and exact and mag > 2.0 ** 14:
+        found = [f["limit"] for f in argfeats if f.get("limit")]
+        limit = min(found) if found else None
+        if (narrow and exact and mag > 2.0 ** 14) or (limit is not None and mag > limit):
             # int16 / int32 leaves: keep clear of their own wrap-around
             real.append(None); want.append(None); depth.append(9); feats.append(None)
             isconst.append(True)
@@ -317,6 +328,7 @@ def run_case(case, ctx):
         depth.append(d)
         names = tuple(sorted(M.all_names(expected)))
         feats.append({"kind": "result", "coef": "int" if exact else "float", "narrow": narrow,
+                      "limit": limit,
                       "shape": tuple(expected.shape),
                       "nterms": max((e.nterms() for e in expected.ravel().tolist()), default=0),
                       "names": names, "view": ""})
